@@ -201,9 +201,10 @@ let parse_reaction (s : string) : M.reaction =
     let parts = split_on_string_keep ":" s in
     let pieces = match parts with
       | _ :: ps :: _ when ps <> "" ->
+        let bytes_of_piece h = if h = "z" then [] else bytes_of_hex h in   (* z: a Read returning (0, nil) *)
         List.map (fun p -> match String.split_on_char '@' p with
-          | [h; d] -> (bytes_of_hex h, z_of_str d)
-          | [h] -> (bytes_of_hex h, M.Z0)
+          | [h; d] -> (bytes_of_piece h, z_of_str d)
+          | [h] -> (bytes_of_piece h, M.Z0)
           | _ -> failwith "piece") (String.split_on_char '+' ps)
       | _ -> [] in
     let eof = match parts with [_; _; "eof"] -> true | _ -> false in
